@@ -3,6 +3,7 @@ package historysim
 import (
 	"bytes"
 	"fmt"
+	"strings"
 	"sync"
 
 	logger "github.com/ElrondNetwork/elrond-go-logger"
@@ -129,7 +130,6 @@ type mbModel struct {
 	history      []recInfo // every record ever attempted with this miniblock
 	tainted      bool      // a put_error fired in a RecordBlock that contained it and no lookup confirmed the latest record since
 	idempotentOK bool      // a re-record of cur's block is a repeated record of the same thing (no Restart, no fault in between)
-	dedupUnknown bool      // a failed record of cur's block may or may not have left its mark in the dedup cache
 	notar        [2]notarState
 	seen         [2][]notif
 }
@@ -140,6 +140,7 @@ type txModel struct {
 	hash      []byte
 	owner     *mbModel   // miniblock of the most recent record that contained the transaction
 	hist      []*mbModel // every miniblock it was ever recorded in
+	stale     bool       // the write of its index entry failed (or its miniblock's record failed): the entry may be an older one
 	viaRepeat bool       // its owner was restored by a repeated record of an older block (fork choice flipped back after a re-pack)
 }
 
@@ -391,7 +392,7 @@ func genC46(r *simkit.Rand, tier string) *simkit.Plan {
 			i := recs[r.Intn(len(recs))]
 			out[i].Fault = "put_error"
 			out[i].T = r.Intn(4)
-			out[i].FaultAt = r.Intn(4)
+			out[i].FaultAt = r.Intn(r.Range(1, 6))
 		}
 		if notifyFault {
 			out = append(out, simkit.Step{Op: "notify"}) // faults have stopped: one more notification call
@@ -549,6 +550,16 @@ func (w *world) record(step int, st *simkit.Step) {
 			string(w.hasher.Compute(fmt.Sprintf("scr-%d", bID))): &smartContractResult.SmartContractResult{OriginalTxHash: in[0].mb.TxHashes[0]},
 		}
 	}
+	// the harness watches the writes of this call at the disk seam: the n-th write on a disk is the one a fault hits
+	var puts [4][][]byte
+	for d := range w.disks {
+		d := d
+		w.disks[d].Gate = func(op string, key []byte) {
+			if op == "put" {
+				puts[d] = append(puts[d], append([]byte(nil), key...))
+			}
+		}
+	}
 	firedBefore := c.Faults["put_error"]
 	if st.Fault == "put_error" && st.T >= 0 && st.T < 4 {
 		w.disks[st.T].Arm("put_error", st.FaultAt)
@@ -556,15 +567,60 @@ func (w *world) record(step int, st *simkit.Step) {
 	err := w.repo.RecordBlock(hdrHash, hdr, body, scrs, nil)
 	for _, d := range w.disks {
 		d.Disarm()
+		d.Gate = nil
 	}
 	fired := c.Faults["put_error"] > firedBefore
-	c.Eventf("%d record block=%d epoch=%d nonce=%d round=%d mask=%b fault_fired=%v err=%v", step, bID, epoch, nonce, round, mask, fired, err)
+	// which object did the failed write belong to?
+	wholeBlock := false             // the header's epoch entry: RecordBlock gives up before any miniblock
+	failedMb := map[*mbModel]bool{} // a miniblock's epoch entry or metadata: that miniblock is not (fully) recorded
+	failedTx := map[string]bool{}   // a transaction's index entry: that transaction may keep its old entry
+	what := "-"
+	if fired && st.FaultAt >= 0 && st.FaultAt < len(puts[st.T]) {
+		key := puts[st.T][st.FaultAt]
+		if i := bytes.IndexByte(key, '/'); i >= 0 {
+			key = key[i+1:] // storer key space prefix ("s/", "e<epoch>/")
+		}
+		switch st.T {
+		case 0, 2:
+			if bytes.Equal(key, hdrHash) {
+				wholeBlock, what = true, "header epoch entry"
+			}
+			for _, m := range in {
+				if bytes.Equal(key, m.hash) {
+					failedMb[m] = true
+					what = fmt.Sprintf("miniblock %d %s", m.id, []string{"metadata", "", "epoch entry"}[st.T])
+				}
+			}
+		case 1:
+			failedTx[string(key)] = true
+			what = "tx index entry"
+		default:
+			what = "results hashes"
+		}
+		if what == "-" {
+			c.HarnessErr("cannot attribute the failed write %x on disk %d", key, st.T)
+			return
+		}
+	} else if fired {
+		c.HarnessErr("fault fired but the write log has no write %d on disk %d", st.FaultAt, st.T)
+		return
+	}
+	c.Eventf("%d record block=%d epoch=%d nonce=%d round=%d mask=%b fault_fired=%v (%s) err=%v", step, bID, epoch, nonce, round, mask, fired, what, err)
+	if fired {
+		c.Probe("record_fault_hit_" + strings.Fields(what)[0])
+	}
 	rec := recInfo{block: bID, hash: hdrHash, epoch: epoch, nonce: nonce, round: round, step: step}
-	for _, m := range in {
+	for mi, m := range in {
 		m.history = append(m.history, rec)
-		sameBlock := !fired && m.cur != nil && m.cur.block == bID && m.cur.epoch == epoch
-		sameAsLast := sameBlock && m.idempotentOK   // the repository skips this record for sure
-		maybeSkipped := sameBlock && m.dedupUnknown // ... or perhaps
+		failed := wholeBlock || failedMb[m] // this miniblock's own writes did not all succeed
+		if fired && !failed && mi > 0 {
+			for _, prev := range in[:mi] {
+				if failedMb[prev] {
+					c.Probe("miniblock_recorded_after_failed_earlier_miniblock")
+				}
+			}
+		}
+		sameAsLast := !failed && m.cur != nil && m.cur.block == bID && m.cur.epoch == epoch && m.idempotentOK // skipped for sure
 		for _, h := range m.mb.TxHashes {
 			t := w.tx(h)
 			known := false
@@ -574,28 +630,26 @@ func (w *world) record(step int, st *simkit.Step) {
 			if !known {
 				t.hist = append(t.hist, m)
 			}
-			switch {
-			case (sameAsLast || maybeSkipped) && t.owner != m:
-				// a repeated record of the same block (the repository may skip the metadata insert) after a competing block
-				// re-packed the transaction: the block recorded now is the most recent one that contains the transaction
-				t.owner, t.viaRepeat = m, true
-				c.Probe("repacked_tx_recommitted_by_repeated_record")
+			// the block recorded now is the most recent one that contains the transaction
+			if t.owner != nil && t.owner != m {
 				w.competing++
-			case sameAsLast || maybeSkipped:
-			default:
-				if t.owner != nil && t.owner != m && !fired {
+				if sameAsLast {
+					c.Probe("repacked_tx_recommitted_by_repeated_record")
+				} else if !failed {
 					c.Probe("tx_repacked_into_other_miniblock")
-					w.competing++
 				}
-				t.owner, t.viaRepeat = m, false
 			}
+			t.viaRepeat = sameAsLast && t.owner != m || (t.viaRepeat && t.owner == m && sameAsLast)
+			t.owner = m
+			// its index entry is written by every record whose miniblock writes succeed (also by a repeated one)
+			t.stale = failed || failedTx[string(h)]
 		}
-		if fired {
+		if failed {
+			// a failed record may be missing: until a fault-free record of the miniblock (or a lookup that shows this record)
 			r := rec
 			m.cur = &r
 			m.tainted = true
 			m.idempotentOK = false
-			m.dedupUnknown = true
 			for s := range m.notar {
 				if m.notar[s].state != nsNone {
 					m.notar[s].state = nsLost
@@ -603,11 +657,18 @@ func (w *world) record(step int, st *simkit.Step) {
 			}
 			continue
 		}
-		same := m.cur != nil && m.cur.block == bID && m.cur.epoch == epoch && m.idempotentOK
-		if same {
+		// all writes of this miniblock succeeded (or it was a repetition the repository skips): it IS recorded, whatever failed
+		// before. From the unchanged code: the dedup mark is removed before the writes and set only after the metadata write
+		// succeeded, so a held mark implies written metadata; hence after a fault-free record of block X the miniblock names X.
+		wasTainted := m.tainted
+		m.tainted = false
+		if sameAsLast {
 			c.Probe("repeated_record_of_same_block")
 			m.cur.step = step // the same block, committed again now
 			continue
+		}
+		if wasTainted {
+			c.Probe("fault_free_record_after_failed_record")
 		}
 		if m.cur != nil && m.cur.block != bID {
 			w.competing++
@@ -634,7 +695,6 @@ func (w *world) record(step int, st *simkit.Step) {
 		r := rec
 		m.cur = &r
 		m.idempotentOK = true
-		m.dedupUnknown = false
 	}
 }
 
@@ -755,7 +815,6 @@ func (w *world) restart() {
 	w.c.Eventf("%d restart", w.c.CurStep)
 	for _, m := range w.mbs {
 		m.idempotentOK = false
-		m.dedupUnknown = false
 		for s := range m.notar {
 			if m.notar[s].state == nsPending {
 				m.notar[s].state = nsLost
@@ -794,7 +853,7 @@ func (w *world) check() {
 		if m == nil || m.cur == nil {
 			continue
 		}
-		relaxed := m.tainted
+		relaxed := m.tainted || t.stale
 		md, err := w.repo.GetMiniblockMetadataByTxHash(t.hash)
 		if err != nil {
 			ownedBad[m]++
@@ -843,6 +902,9 @@ func (w *world) check() {
 			ownedOK[m]++
 			if !relaxed {
 				w.asserted++
+			}
+			if t.stale && !m.tainted {
+				t.stale = false // the lookup shows the latest record: the entry is in place
 			}
 		}
 		// notarization data (md is metadata of miniblock m here)
